@@ -1,4 +1,4 @@
-import Lemmas.Conv128AsFloat
+import Lemmas.Conv128AsFloatUlp
 import Lemmas.Conv128Parse
 /-! # C02 — 128-bit integers convert and print losslessly and saturate when out of range
 
@@ -264,21 +264,59 @@ theorem asFloat64_i_reduces (i : I128) :
     refine ⟨rfl, ?_⟩
     unfold I128.asUint128 U128.toNat I128.toInt; rw [if_pos (by omega)]
 
-/-- full statements of the sign and one-ulp clauses for all 2^128 values (the inexact path of `roundRatN`:
-    two roundings of the halves, one of the product-sum).  Not proved; `AsFloat64` is compared bit for bit with the
-    hardware on every check run, including halfway cases at every bit length. -/
-def asFloat64_sign_Statement : Prop :=
-  ∀ u : U128, ∃ m e, u.asFloat64 = .fin false m e ∧ (m = 0 ↔ u.toNat = 0)
+/-- `asFloat64_sign` (Uint128), all 2^128 values: the result is finite with a clear sign bit, and it is zero exactly
+    for the value 0 (so positive values give positive floats) -/
+theorem asFloat64_sign_u (u : U128) : ∃ m e, u.asFloat64 = .fin false m e ∧ (m = 0 ↔ u.toNat = 0) := by
+  obtain ⟨m, e, h, _, _, z1, z2, _⟩ := U128.asFloat64_round u
+  refine ⟨m, e, h, ?_, z1⟩
+  intro hm
+  exact Classical.byContradiction fun c => by have := z2 c; omega
 
-def asFloat64_within_ulp_Statement : Prop :=
-  ∀ u : U128, ∃ m e, u.asFloat64 = .fin false m e ∧ -1074 ≤ e ∧
-    -- |m·2^e − x| ≤ 2^e (one unit in the last place), written without fractions for e ≥ 0 (x ≥ 2^53)
-    (0 ≤ e → (m : Int) * 2^e.toNat - 2^e.toNat ≤ u.toNat ∧ (u.toNat : Int) ≤ m * 2^e.toNat + 2^e.toNat)
+/-- `asFloat64_sign` (Int128), all 2^128 values: the sign bit is set exactly for negative values and the result is
+    zero (`+0`) exactly for the value 0 -/
+theorem asFloat64_sign_i (i : I128) :
+    ∃ m e, i.asFloat64 = .fin (decide (i.toInt < 0)) m e ∧ (m = 0 ↔ i.toInt = 0) := by
+  obtain ⟨m, e, h, _, _, z1, z2, _⟩ := I128.asFloat64_round i
+  refine ⟨m, e, h, ?_, z1⟩
+  intro hm
+  exact Classical.byContradiction fun c => by have := z2 c; omega
 
-/-- `asFloat64_sign` / `asFloat64_within_ulp`, proved part: both hold below 2^53, where the conversion is exact -/
-theorem asFloat64_sign_partial (u : U128) (h : u.toNat < 2^53) :
-    ∃ m e, u.asFloat64 = .fin false m e ∧ (m = 0 ↔ u.toNat = 0) :=
-  (U128.asFloat64_exact u h).2
+/-- `asFloat64_within_ulp` (Uint128), all 2^128 values, through the three roundings `float64(hi)`, `float64(lo)` and
+    the sum (the product by 2^64 is exact): the result `m·2^e` is a well-formed binary64 (`+0`, or normal with
+    `2^52 ≤ m < 2^53`, so that `2^e` is exactly its unit in the last place), and `|m·2^e − x| ≤ 2^e`.  The inequality
+    is written without fractions for `e ≥ 0`, which holds for every `x ≥ 2^53`; below 2^53 the conversion is exact
+    (`asFloat64_exact_below_2_53_u`). -/
+theorem asFloat64_within_ulp_u (u : U128) :
+    ∃ m e, u.asFloat64 = .fin false m e ∧ -1074 ≤ e ∧ e ≤ 971 ∧ (u.toNat ≠ 0 → 2^52 ≤ m ∧ m < 2^53) ∧
+      (2^53 ≤ u.toNat → 0 ≤ e) ∧
+      (0 ≤ e → (m : Int) * 2^e.toNat - 2^e.toNat ≤ u.toNat ∧ (u.toNat : Int) ≤ m * 2^e.toNat + 2^e.toNat) := by
+  obtain ⟨m, e, h, e1, e2, _, z2, z3, hb⟩ := U128.asFloat64_round u
+  refine ⟨m, e, h, e1, e2, z2, z3, ?_⟩
+  intro he
+  obtain ⟨b1, b2⟩ := hb he
+  have c1 := Int.ofNat_le.mpr b1
+  have c2 := Int.ofNat_le.mpr b2
+  push_cast at c1 c2
+  omega
+
+/-- `asFloat64_within_ulp` (Int128), all 2^128 values: the result is `±m·2^e` with the sign of the value (the sign is
+    handled through `AbsUint128`, also for `MinInt128`), well formed, and `|±m·2^e − x| ≤ 2^e`; `e ≥ 0` whenever
+    `|x| ≥ 2^53`, and below that the conversion is exact (`asFloat64_exact_below_2_53_i`). -/
+theorem asFloat64_within_ulp_i (i : I128) :
+    ∃ m e, i.asFloat64 = .fin (decide (i.toInt < 0)) m e ∧ -1074 ≤ e ∧ e ≤ 971 ∧
+      (i.toInt ≠ 0 → 2^52 ≤ m ∧ m < 2^53) ∧ (2^53 ≤ i.toInt ∨ i.toInt ≤ -(2^53) → 0 ≤ e) ∧
+      (0 ≤ e → (if i.toInt < 0 then -(m : Int) else m) * 2^e.toNat - 2^e.toNat ≤ i.toInt ∧
+        i.toInt ≤ (if i.toInt < 0 then -(m : Int) else m) * 2^e.toNat + 2^e.toNat) := by
+  obtain ⟨m, e, h, e1, e2, _, z2, z3, hb⟩ := I128.asFloat64_round i
+  refine ⟨m, e, h, e1, e2, z2, fun c => z3 (by omega), ?_⟩
+  intro he
+  obtain ⟨b1, b2⟩ := hb he
+  have c1 := Int.ofNat_le.mpr b1
+  have c2 := Int.ofNat_le.mpr b2
+  push_cast at c1 c2
+  by_cases hn : i.toInt < 0
+  · rw [if_pos hn, Int.neg_mul]; omega
+  · rw [if_neg hn]; omega
 
 /-! ## non-vacuity -/
 
